@@ -212,6 +212,14 @@ def main():
                     obs = None
                     direct.append({"law": "response classifiable as file / listing / DAP response / refusal", "request": req_path,
                                    "status": status, "ctype": ctype, "body": body[:60].decode("latin-1")})
+                # ---- direct routing oracle: an existing file inside the data directory is returned verbatim (catalog.xml itself
+                #      is the name of the virtual catalog of its directory)
+                inside_root = resolved == root or resolved.startswith(root + "/")
+                if exc is None and inside_root and os.path.isfile(resolved) and os.path.basename(resolved) != "catalog.xml" and \
+                        not (status == 200 and body == open(resolved, "rb").read()):
+                    direct.append({"law": "an existing file inside the data directory is returned verbatim", "root": root,
+                                   "request": req_path, "file": resolved, "status": status, "content_type": ctype,
+                                   "body": body[:80].decode("latin-1")})
                 # routing is a function of the request and the disk: the same request answered differently later on the same server
                 if req_path in first_obs and first_obs[req_path] != (obs, status) and obs is not None:
                     direct.append({"law": "the same request is routed the same way whatever the server answered before", "root": root,
